@@ -426,7 +426,10 @@ func (rm *ResponseManager) finishTask(task *peertask.Task, p peer.ID, err error)
 	if response.networkError && !ipldutil.IsContextCancelErr(err) {
 		// the response stream was closed by a network error while the task was
 		// running: whatever the executor queued last (pause, final status) was
-		// dropped, so no message notification will ever terminate this response
+		// dropped, so no message notification will ever terminate this response.
+		// The executor, which did not see the error, has not released the
+		// response's link tracking either.
+		response.responseStream.ClearRequest()
 		err = queryexecutor.ErrNetworkError
 	}
 	if _, ok := err.(hooks.ErrPaused); ok {
